@@ -4,7 +4,7 @@
 # keeps one persistent scratch worktree + build under /tmp/confirm-wt (remove it when done with all seeds).
 set -u
 SEED=$(realpath "$1"); shift
-WT=/tmp/confirm-wt
+WT=${CONFIRM_WT:-/tmp/confirm-wt}
 if [ ! -d $WT ]; then
   git -C /repo worktree add -q $WT HEAD || exit 2
   GIT_DIR=$(git -C $WT rev-parse --absolute-git-dir) cmake -G Ninja -S $WT -B $WT/_b -DCMAKE_BUILD_TYPE=RelWithDebInfo -DCMAKE_CXX_FLAGS=-Wno-error > /dev/null || exit 2
@@ -13,16 +13,16 @@ cd $WT && git checkout -q -- . && git clean -fdq -e _b
 # keep the scratch tree at /repo's HEAD
 git -C $WT checkout -q --detach $(git -C /repo rev-parse HEAD)
 echo "== baseline (no patch): build + demo"
-cmake --build $WT/_b -j12 > /tmp/confirm-build.log 2>&1 || { tail -5 /tmp/confirm-build.log; exit 2; }
-( cd $SEED && bash ./demo.sh $WT/_b $WT ) > /tmp/confirm-demo0.log 2>&1; d0=$?
+cmake --build $WT/_b -j12 > $WT.build.log 2>&1 || { tail -5 $WT.build.log; exit 2; }
+( cd $SEED && bash ./demo.sh $WT/_b $WT ) > $WT.demo0.log 2>&1; d0=$?
 echo "demo without patch: exit $d0"
 echo "== with patch"
 git -C $WT apply $SEED/patch.diff || { echo "patch does not apply"; exit 2; }
-cmake --build $WT/_b -j12 > /tmp/confirm-build.log 2>&1 || { echo "DOES NOT COMPILE"; tail -5 /tmp/confirm-build.log; git -C $WT checkout -q -- .; exit 1; }
-ctest --test-dir $WT/_b -j8 --timeout 900 > /tmp/confirm-ctest.log 2>&1
-failed=$(grep -E "^\s+[0-9]+ - " /tmp/confirm-ctest.log | grep -v "test_program_linear\|test_program_quadratic" | tr -s ' ' | tr '\n' ';')
+cmake --build $WT/_b -j12 > $WT.build.log 2>&1 || { echo "DOES NOT COMPILE"; tail -5 $WT.build.log; git -C $WT checkout -q -- .; exit 1; }
+ctest --test-dir $WT/_b -j8 --timeout 900 > $WT.ctest.log 2>&1
+failed=$(grep -E "^\s+[0-9]+ - " $WT.ctest.log | grep -v "test_program_linear\|test_program_quadratic" | tr -s ' ' | tr '\n' ';')
 echo "repo tests failing with patch (flaky program tests ignored): ${failed:-none}"
-( cd $SEED && bash ./demo.sh $WT/_b $WT ) > /tmp/confirm-demo1.log 2>&1; d1=$?
+( cd $SEED && bash ./demo.sh $WT/_b $WT ) > $WT.demo1.log 2>&1; d1=$?
 echo "demo with patch: exit $d1"
 ALT=$(cd /verif && VERIF_REPO=$WT python3 -c "import sys;sys.path.insert(0,'tools');import vlib;print(vlib.WORK)")
 rm -rf "$ALT/coq/generated" "$ALT/replays" 2>/dev/null
